@@ -268,6 +268,20 @@ func genUEChoice(t *rapid.T, k int, taken map[uint64]bool) refamf.UEChoice {
 			}
 		}
 	}
+	if rapid.IntRange(0, 5).Draw(t, l+"long_dl") == 0 {
+		// a long downlink message (1..2 kilobytes, still below the emulator's 2048-octet receive buffer): a Mobility
+		// Restriction List that forbids a few hundred tracking areas, in the Security Mode Command's transport or in
+		// the Initial Context Setup Request (or both)
+		u.ForbiddenTACs = rapid.IntRange(300, 520).Draw(t, l+"forbidden_tacs")
+		switch rapid.IntRange(0, 2).Draw(t, l+"long_where") {
+		case 0:
+			u.Options |= refamf.OptDLMobilityRestr
+		case 1:
+			u.Options |= refamf.OptICSMobilityRestr
+		default:
+			u.Options |= refamf.OptDLMobilityRestr | refamf.OptICSMobilityRestr
+		}
+	}
 	u.UEIP = drawIPv4(t, l+"ueip")
 	u.UPFIP = drawIPv4(t, l+"upfip")
 	u.TEID = rapid.Uint32().Draw(t, l+"teid")
@@ -359,6 +373,9 @@ func scenarioClasses(sc refamf.Scenario) []string {
 	for _, u := range sc.UEs {
 		if u.AMFUEID >= 1<<32 {
 			cl = append(cl, "amf-id>=2^32")
+		}
+		if u.ForbiddenTACs > 0 {
+			cl = append(cl, "downlink-message>1KiB")
 		}
 		if u.Options&refamf.NGAPOptionMask != 0 {
 			cl = append(cl, "optional-dl-ie")
